@@ -239,6 +239,8 @@ class NpShim(object):
         if isinstance(x, (SNum, SBool)):
             return x
         if any_sym((x,)):
+            if isinstance(x, list) and all(isinstance(e, (SNum, SBool, int, float)) for e in x):
+                return list(x)       # a short list of scalars stays a list of scalars (element access only)
             raise Unsupported("np.array of a list of proxies")
         return _np.array(x, dtype, **k) if dtype is not None else _np.array(x, **k)
 
